@@ -93,7 +93,9 @@ def record(sc):
         World.from_json(sc["world"]).materialise(rd.world)
         res = _group(rd, sc)
         if res.rc != 0:
-            raise core.HarnessError("fault-free group failed in %s: %r" % (sc["name"], res.err[-300:]))
+            # not a harness matter: on these worlds the unchanged tree always succeeds, and e.g. the extent
+            # query fails naturally on tmpfs for every file of an HDD/unknown device - the property applies
+            return None
         pts = []
         rootset = {s2b(r) for r in sc["roots"]}
         for e in res.trace.events:
@@ -114,6 +116,9 @@ def gen_cases(tier, seed):
     rng = random.Random(stable_hash(seed, ID, "pairs"))
     for sc in scenarios(tier):
         pts = record(sc)
+        if pts is None:
+            yield {"sc": sc, "faults": []}        # judged by run_case: the run must finish successfully
+            continue
         for (kind, path, ord_, nat) in pts:
             # an injected EOF is a truncation only where the real call would have delivered data
             acts = ["errno:" + e for e in ERRNOS] + (["eof"] if (kind == "read" and nat > 0) else [])
